@@ -29,6 +29,8 @@ pub struct Sink {
     pub seen: Mutex<Vec<Option<u64>>>,
     /// model violations noticed inside a call (by the implementor or by the caller's post-check)
     pub model: Mutex<Vec<String>>,
+    /// set by the runner on the sink of the run that goes through the opaque object
+    pub opaque: std::sync::atomic::AtomicBool,
 }
 
 impl Sink {
